@@ -59,6 +59,8 @@ use std::{
 use tokio::sync::mpsc;
 
 const OPEN_TIMEOUT: Duration = Duration::from_millis(400);
+/// substream-open timeout of `hold` cases: never reached while the case runs
+const HOLD_TIMEOUT: Duration = Duration::from_secs(30);
 
 // ------------------------------------------------------------------------------------------
 // log capture: the message of the arm through which the loop ended
@@ -285,21 +287,28 @@ pub fn run_loop(case: &mut [u64]) -> Vec<u64> {
     }
     let (tr, n, fbmask, dead0, cap, nops) =
         (case[1], case[2] as usize, case[3], case[4], case[5] as usize, case[6] as usize);
-    if tr > 1 || !(1..=4).contains(&n) || !(1..=64).contains(&cap) || case.len() != 7 + 5 * nops || nops > 40 {
+    let hold = tr >> 1 & 1 == 1;
+    let open_timeout = if hold { HOLD_TIMEOUT } else { OPEN_TIMEOUT };
+    if tr > 3 || !(1..=4).contains(&n) || !(1..=64).contains(&cap) || case.len() != 7 + 5 * nops || nops > 40 {
         return vec![0];
     }
     if fbmask >= 16 || dead0 >= 16 {
         return vec![0];
     }
     for k in 0..nops {
-        let op = case[7 + 5 * k];
+        let (op, b) = (case[7 + 5 * k], case[9 + 5 * k]);
         if !((1..=7).contains(&op) || op == 9) {
+            return vec![0];
+        }
+        // b = 3 waits for the open timeout, b = 4 leaves the negotiation pending: the latter in hold cases only
+        if (op == 1 || op == 2) && ((hold && b == 3) || (!hold && b == 4)) {
             return vec![0];
         }
     }
     let msgs = Arc::new(Mutex::new(Vec::<String>::new()));
     let _guard = tracing::subscriber::set_default(Cap(msgs.clone()));
     let rt = tokio::runtime::Builder::new_current_thread().enable_all().build().unwrap();
+    let tr = tr & 1;
     let exit_msgs: &[&str] = if tr == 0 { TCP_EXIT_MSGS } else { WS_EXIT_MSGS };
     let result: Option<Vec<u64>> = rt.block_on(async {
         let listener = tokio::net::TcpListener::bind("127.0.0.1:0").await.ok()?;
@@ -392,15 +401,15 @@ pub fn run_loop(case: &mut [u64]) -> Vec<u64> {
         let raw: Raw;
         if tr == 0 {
             let (a, r) = tokio::join!(
-                TcpConnection::verif_connection(accepted, Role::Listener, ka, id, set, OPEN_TIMEOUT),
-                TcpConnection::verif_raw_peer(dialed, Role::Dialer, kr, Duration::from_secs(5))
+                TcpConnection::verif_connection(accepted, Role::Listener, ka, id, set, open_timeout),
+                TcpConnection::verif_raw_peer(dialed, Role::Dialer, kr, Duration::from_secs(20))
             );
             st.fut = Some(Box::pin(a.ok()?.verif_start()));
             raw = Raw::Tcp(r.ok()?);
         } else {
             let (a, r) = tokio::join!(
-                VerifWsConnection::listener(accepted, ka, id, set, OPEN_TIMEOUT),
-                VerifWsConnection::raw_dialer(dialed, kr, Duration::from_secs(5))
+                VerifWsConnection::listener(accepted, ka, id, set, open_timeout),
+                VerifWsConnection::raw_dialer(dialed, kr, Duration::from_secs(20))
             );
             st.fut = Some(Box::pin(a.ok()?.start()));
             raw = Raw::Ws(r.ok()?);
@@ -426,9 +435,9 @@ pub fn run_loop(case: &mut [u64]) -> Vec<u64> {
                             tokio::time::sleep(Duration::from_secs(3)).await;
                             drop(s);
                         })),
-                        3 => held.push(tokio::spawn(async move {
+                        3 | 4 => held.push(tokio::spawn(async move {
                             handled.fetch_add(1, Ordering::SeqCst);
-                            tokio::time::sleep(Duration::from_secs(3)).await;
+                            tokio::time::sleep(Duration::from_secs(60)).await;
                             drop(stream);
                         })),
                         _ => {
@@ -534,8 +543,8 @@ pub fn run_loop(case: &mut [u64]) -> Vec<u64> {
                         }
                         let mut ctl = rem.control.clone();
                         let name = name_of_code(a, n);
-                        let stall = op == 2 && b == 3;
-                        if stall {
+                        let stall = op == 2 && (b == 3 || b == 4);
+                        if op == 2 && b == 3 {
                             min_wait = OPEN_TIMEOUT + Duration::from_millis(150);
                         }
                         let list = if stall { &mut rem.bg } else { &mut rem.acts };
@@ -544,7 +553,7 @@ pub fn run_loop(case: &mut [u64]) -> Vec<u64> {
                             if stall {
                                 let _ = s.write_all(b"\x13/multistream/1.0.0\n").await;
                                 let _ = s.flush().await;
-                                tokio::time::sleep(Duration::from_secs(3)).await;
+                                tokio::time::sleep(Duration::from_secs(60)).await;
                                 drop(s);
                             } else {
                                 let neg = negotiate(tr, s, true, vec![name]).await;
@@ -619,7 +628,7 @@ pub fn run_loop(case: &mut [u64]) -> Vec<u64> {
             let (mut early_done, mut early_mgr) = (0u64, 0u64);
             if let Some(p) = fill {
                 st.skip = Some(p);
-                quiesce(&mut st, &mut rem, min_wait, min_wait + Duration::from_millis(1500)).await;
+                quiesce(&mut st, &mut rem, min_wait, min_wait + Duration::from_millis(600)).await;
                 st.skip = None;
                 if state_before == 0 {
                     early_done = (st.state != 0) as u64;
@@ -663,7 +672,10 @@ pub fn run_loop(case: &mut [u64]) -> Vec<u64> {
 /// Scenario generator: mostly short lives of one connection with every termination cause, with
 /// protocols that have exited before or during, with full channels at the moment of the exit.
 pub fn gen_loop(rng: &mut Rng, transports: &[u64]) -> Vec<u64> {
-    let tr = rng.pick(transports);
+    // one case in four runs with a substream-open timeout that is never reached: negotiations the remote
+    // does not answer stay pending (and keep a permit) while the connection is closed around them
+    let hold = rng.chance(25);
+    let tr = rng.pick(transports) + if hold { 2 } else { 0 };
     let n = rng.range(1, 4);
     let fbmask = rng.below(1 << n);
     let dead0 = if rng.chance(35) { rng.below(1 << n) } else { 0 };
@@ -690,7 +702,9 @@ pub fn gen_loop(rng: &mut Rng, transports: &[u64]) -> Vec<u64> {
             let mut k = rng.pick(&[0u64, 0, 0, 1, 2, 3]);
             if k == 3 {
                 stalls += 1;
-                if stalls > 1 {
+                if hold {
+                    k = 4;
+                } else if stalls > 1 {
                     k = 1;
                 }
             }
@@ -699,7 +713,9 @@ pub fn gen_loop(rng: &mut Rng, transports: &[u64]) -> Vec<u64> {
             let mut k = rng.pick(&[0u64, 0, 0, 0, 3]);
             if k == 3 {
                 stalls += 1;
-                if stalls > 1 {
+                if hold {
+                    k = 4;
+                } else if stalls > 1 {
                     k = 0;
                 }
             }
@@ -718,6 +734,11 @@ pub fn gen_loop(rng: &mut Rng, transports: &[u64]) -> Vec<u64> {
             [9, name, 0, fill, 0]
         };
         ops.push(o);
+    }
+    if hold && rng.chance(60) {
+        let at = rng.below(ops.len() as u64) as usize;
+        let o = if rng.chance(50) { [1, rng.below(n), 4, 0, 0] } else { [2, rng.below(2 * n), 4, 0, 0] };
+        ops.insert(at, o);
     }
     let mut c = vec![3, tr, n, fbmask, dead0, cap, ops.len() as u64];
     for o in ops {
